@@ -8,7 +8,12 @@ same verdict / exception, or an assignment of the same argument to a tree that t
 checker wf_treeb accepts for the grammar, is closed, carries the requested nonterminal and
 whose yield is the requested string (Coq function `agrees`).  A SyntaxError of the parser is
 accepted iff the requested string is outside the nonterminal's language according to an
-independent description of that language (cross-checked against the parser on every run)."""
+independent description of that language (cross-checked against the parser on every run).
+
+Proof extension (composition with C10): on the small cases the COMPOSED model sem_eval_earley
+(Logic/SemPredsParser.v: mk_parser modelled over the Earley model Grammar/Earley.v) is evaluated as
+well and must reproduce the implementation's outcome exactly — same replacement tree, SyntaxError
+iff the model's parser rejects (Coq function `agrees_full`)."""
 import itertools, json, random, re, string
 import lib
 from lib import g_str, g_bool, g_tree, g_Z, g_nat, g_grammar
